@@ -37,7 +37,7 @@ ASSUMPTIONS = ['simulation kernel fidelity (DESIGN.md 4.3/4.5)',
 
 
 def plan(tier):
-    n, per = (16, 1000) if tier == 'quick' else (16, 20000)
+    n, per = (16, 600) if tier == 'quick' else (16, 20000)
     return [{'kind': 'admission', 'n': per} for _ in range(n)]
 
 
@@ -154,6 +154,10 @@ def run_admission(adm, schedule):
     os.close(fd)
     net = O.Network()
     kernel = Kernel(make_chooser(schedule), max_steps=SE.STEP_BOUND)
+    if schedule.get('traced'):
+        # a scheduling point at every source line of the admission code: a rejected connection's thread is then still
+        # alive for a few steps after it has signalled its verdict, the seat table changes in steps of its own, ...
+        kernel.trace_files, kernel.trace_funcs = ('/network_bridge/server.py',), ('_connect', 'run', '_handle_error', '_check_message')
     logs = {a['id']: [] for a in adm['attempts']}
     verdicts = {}
     excs = {}
@@ -270,6 +274,8 @@ def check_session(adm_or_scenario, schedule, stats=None, attempts=None, **kw):
         stats.cls(f'rejections {min(len(rejections), 4)}{"+" if len(rejections) >= 4 else ""}')
         if any(a['case'] != 'asis' for a in adm['attempts']):
             stats.cls('seat name in non-default letter case')
+        if schedule.get('traced'):
+            stats.cls('admissions with line-level scheduling points inside the admission code')
         nonseq = schedule.get('kind') != 'sequential' or schedule.get('stalls')
         if len(rejections) >= 2 and len(set(rejections)) >= 2 and nonseq:
             stats.nt([adm['attempts'], accepted],
@@ -279,13 +285,14 @@ def check_session(adm_or_scenario, schedule, stats=None, attempts=None, **kw):
 
 def run_shard(spec, seed, tier, stats):
     v = run_hypothesis(lambda adm, schedule: check_session(adm, schedule, stats),
-                       {'adm': attempts_strategy(), 'schedule': SE.SCHEDULE()}, seed, spec['n'], tier == 'thorough')
+                       {'adm': attempts_strategy(), 'schedule': st.tuples(SE.SCHEDULE(), st.integers(0, 2)).map(lambda t: dict(t[0], traced=True) if t[1] == 0 else t[0])},
+                       seed, spec['n'], tier == 'thorough')
     return [v] if v else []
 
 
 def replay(rec):
     c = rec['case']
-    for sched in ([{'kind': 'replay', 'trace': c['trace']}] if c.get('trace') else []) + [c['schedule']]:
+    for sched in ([{'kind': 'replay', 'trace': c['trace'], 'traced': bool(c['schedule'].get('traced'))}] if c.get('trace') else []) + [c['schedule']]:
         try:
             check_session(c['attempts'], sched)
         except Violation as v:
